@@ -9,12 +9,14 @@ package main
 import (
 	"bytes"
 	"compress/gzip"
+	"context"
 	"errors"
 	"fmt"
 	"io"
 	"os"
 	"path/filepath"
 	"strings"
+	"syscall"
 )
 
 var errInjected = errors.New("injected I/O error")
@@ -29,13 +31,40 @@ type faultReader struct {
 	calls    int
 	pos      int
 	failed   bool
+	err      error // what the failing Read returns (nil = errInjected)
+}
+
+// c08ReadErrors: what a failing Read can return.  None of them is "end of input".
+var c08ReadErrors = []struct {
+	name string
+	err  error
+}{
+	{"a plain error", nil},
+	{"io.ErrUnexpectedEOF", io.ErrUnexpectedEOF},
+	{"EIO as os.File wraps it", &os.PathError{Op: "read", Path: "in.log", Err: syscall.EIO}},
+	{"ECONNRESET", syscall.ECONNRESET},
+	{"EAGAIN", syscall.EAGAIN},
+	{"EINTR", syscall.EINTR},
+	{"io.ErrClosedPipe", io.ErrClosedPipe},
+	{"os.ErrClosed", os.ErrClosed},
+	{"io.ErrNoProgress", io.ErrNoProgress},
+	{"context.Canceled", context.Canceled},
+	{"os.ErrDeadlineExceeded", os.ErrDeadlineExceeded},
+	{"an error that wraps io.EOF", fmt.Errorf("transfer closed with outstanding read data remaining: %w", io.EOF)},
+}
+
+func (r *faultReader) fail() error {
+	if r.err != nil {
+		return r.err
+	}
+	return errInjected
 }
 
 func (r *faultReader) Read(p []byte) (int, error) {
 	call := r.calls
 	r.calls++
 	if r.failed {
-		return 0, errInjected
+		return 0, r.fail()
 	}
 	n := r.chunk
 	if n > len(p) {
@@ -49,9 +78,9 @@ func (r *faultReader) Read(p []byte) (int, error) {
 		if r.withData && n > 0 {
 			copy(p, r.data[r.pos:r.pos+n])
 			r.pos += n
-			return n, errInjected
+			return n, r.fail()
 		}
-		return 0, errInjected
+		return 0, r.fail()
 	}
 	if n == 0 {
 		return 0, io.EOF
@@ -78,7 +107,35 @@ type faultWriter struct {
 	calls      int
 	accepted   bytes.Buffer
 	faulted    bool
-	afterFault int // Write calls made after the first fault
+	afterFault int   // Write calls made after the first fault
+	err        error // the error a failing Write returns (nil = errInjected)
+}
+
+// c08WriteErrors: what a failing Write can return.  Which error it is must not matter: a failed write is a failed run.
+var c08WriteErrors = []struct {
+	name string
+	err  error
+}{
+	{"a plain error", nil},
+	{"EPIPE (the consumer went away)", syscall.EPIPE},
+	{"a *PathError wrapping EPIPE, as os.File returns it", &os.PathError{Op: "write", Path: "/dev/stdout", Err: syscall.EPIPE}},
+	{"ENOSPC", &os.PathError{Op: "write", Path: "out.log", Err: syscall.ENOSPC}},
+	{"EIO", syscall.EIO},
+	{"EAGAIN", syscall.EAGAIN},
+	{"EINTR", syscall.EINTR},
+	{"io.ErrClosedPipe", io.ErrClosedPipe},
+	{"os.ErrClosed", os.ErrClosed},
+	{"io.EOF", io.EOF},
+	{"io.ErrShortWrite", io.ErrShortWrite},
+	{"context.Canceled", context.Canceled},
+	{"os.ErrDeadlineExceeded", os.ErrDeadlineExceeded},
+}
+
+func (w *faultWriter) fail() error {
+	if w.err != nil {
+		return w.err
+	}
+	return errInjected
 }
 
 func (w *faultWriter) Write(p []byte) (int, error) {
@@ -87,7 +144,7 @@ func (w *faultWriter) Write(p []byte) (int, error) {
 	if w.faulted {
 		w.afterFault++
 		if w.later == 1 {
-			return 0, errInjected
+			return 0, w.fail()
 		}
 		w.accepted.Write(p)
 		return len(p), nil
@@ -104,7 +161,7 @@ func (w *faultWriter) Write(p []byte) (int, error) {
 			w.accepted.Write(p[:len(p)/2])
 			return len(p) / 2, io.ErrShortWrite
 		}
-		return 0, errInjected
+		return 0, w.fail()
 	}
 	w.accepted.Write(p)
 	return len(p), nil
@@ -223,17 +280,22 @@ func c08Run(c *Ctx) {
 					if !c.Mine(caseNo) {
 						continue
 					}
-					for _, withData := range []bool{false, true} {
+					nErr := 1
+					if chunk == chunks[min(1, len(chunks)-1)] {
+						nErr = len(c08ReadErrors) // which error it is: at one chunk size
+					}
+					for ei := 0; ei < 2*nErr; ei++ {
+						withData := ei%2 == 1
 						for _, ch := range []string{"reader", "file"} {
-							fr := &faultReader{data: []byte(text), chunk: chunk, failAt: k, withData: withData}
+							fr := &faultReader{data: []byte(text), chunk: chunk, failAt: k, withData: withData, err: c08ReadErrors[ei/2].err}
 							var out bytes.Buffer
 							err, pv := c08RunStream(ch, fr, &out)
 							c.Eval(1)
-							c.Distinct(fmt.Sprintf("read %d/%v chunk %d k %d %v %s", nl, final, chunk, k, withData, ch))
+							c.Distinct(fmt.Sprintf("read %d/%v chunk %d k %d %v %s %d", nl, final, chunk, k, withData, ch, ei/2))
 							if !fr.failed {
 								continue // the stream ended before the k-th read
 							}
-							desc := fmt.Sprintf("%d-line input (final newline %v), channel %s, chunk size %d, Read call #%d fails (data with the error: %v)", nl, final, ch, chunk, k, withData)
+							desc := fmt.Sprintf("%d-line input (final newline %v), channel %s, chunk size %d, Read call #%d fails with %s (data with the error: %v)", nl, final, ch, chunk, k, c08ReadErrors[ei/2].name, withData)
 							rp := map[string]any{"kind": "read-fault", "lines": nl, "final_newline": final, "chunk": chunk, "fail_at": k, "with_data": withData, "channel": ch}
 							switch {
 							case pv != nil:
@@ -264,7 +326,7 @@ func c08Run(c *Ctx) {
 				if !c.Mine(caseNo) {
 					continue
 				}
-				for mode := 0; mode < 3; mode++ {
+				for mode := 0; mode < 3+len(c08WriteErrors)-1; mode++ {
 					for later := 0; later < 2; later++ {
 						for _, ch := range []string{"reader", "file", "gzip"} {
 							var rd io.ReadCloser = io.NopCloser(strings.NewReader(text))
@@ -272,13 +334,21 @@ func c08Run(c *Ctx) {
 								rd = io.NopCloser(bytes.NewReader(gz([]byte(text))))
 							}
 							fw := &faultWriter{failAt: k, mode: mode, later: later}
+							modeDesc := []string{"fails", "is one byte short", "accepts half"}[min(mode, 2)]
+							modeName := ""
+							if mode >= 3 {
+								// modes 3..: the write fails outright, with each of the other error values
+								fw.mode, fw.err = 0, c08WriteErrors[mode-2].err
+								modeName = "fails with " + c08WriteErrors[mode-2].name
+								modeDesc = modeName
+							}
 							err, pv := c08RunStream(ch, rd, fw)
 							c.Eval(1)
 							c.Distinct(fmt.Sprintf("write %d/%v k %d mode %d later %d %s", nl, final, k, mode, later, ch))
 							if !fw.faulted {
 								continue
 							}
-							desc := fmt.Sprintf("%d-line input, channel %s, Write call #%d %s, later writes %s", nl, ch, k, []string{"fails", "is one byte short", "accepts half"}[mode], []string{"succeed", "fail"}[later])
+							desc := fmt.Sprintf("%d-line input, channel %s, Write call #%d %s, later writes %s", nl, ch, k, modeDesc, []string{"succeed", "fail"}[later])
 							rp := map[string]any{"kind": "write-fault", "lines": nl, "final_newline": final, "fail_at": k, "mode": mode, "later": later, "channel": ch}
 							switch {
 							case pv != nil:
@@ -602,7 +672,7 @@ func c08CLI(c *Ctx) {
 func init() {
 	register(&PropDef{
 		ID: "C08", Level: "fault_enumeration",
-		Rule:        "inputs of 6 and 40 lines (command lines of three kinds, other components, non-JSON text, blanks; with and without final newline) on the real stream code; reader faults: chunk sizes {1,7,512,4096} x EVERY Read call index failing, cleanly or together with that call's data, through the reader and the file entry points; writer faults: EVERY Write call index x {error, one byte short, half accepted} x {later writes succeed, fail} through reader, file and gzip entry points; gzip: the compressed stream cut at EVERY byte offset, each byte XOR 0xFF and (6-line input / thorough) each single bit flipped, judged against an independent compress/gzip reading of the same bytes; CLI: stdout and --outputFile on /dev/full for file / gzip / stdin input, stdout a pipe closed by its reader, damaged .gz files at every 16th (thorough: every) offset. Oracle: a surfaced fault => error return / non-zero exit; bytes accepted by the writer are a byte prefix of the fault-free output; after a read fault the output is a whole-line prefix of the fault-free lines (for damaged gzip: of the redaction of the complete lines actually delivered). distinct = distinct (input, fault) pairs" + "; inputs holding a 70 000- / 200 000-byte line (beyond the line limit) under the same Read-index and gzip-cut enumeration; /dev/full on stdout / --outputFile at 1, 50, 400, 2 000, 6 000 (thorough 20 000) input lines from file and stdin",
+		Rule:        "inputs of 6 and 40 lines (command lines of three kinds, other components, non-JSON text, blanks; with and without final newline) on the real stream code; reader faults: chunk sizes {1,7,512,4096} x EVERY Read call index failing, cleanly or together with that call's data (at one chunk size with each of 12 error values: a plain one, io.ErrUnexpectedEOF, EIO, ECONNRESET, EAGAIN, EINTR, io.ErrClosedPipe, os.ErrClosed, io.ErrNoProgress, context.Canceled, a deadline, an error wrapping io.EOF), through the reader and the file entry points; writer faults: EVERY Write call index x {error - with each of 13 error values: a plain one, EPIPE bare and as os.File wraps it, ENOSPC, EIO, EAGAIN, EINTR, io.ErrClosedPipe, os.ErrClosed, io.EOF, io.ErrShortWrite, context.Canceled, os.ErrDeadlineExceeded -, one byte short, half accepted} x {later writes succeed, fail} through reader, file and gzip entry points; gzip: the compressed stream cut at EVERY byte offset, each byte XOR 0xFF and (6-line input / thorough) each single bit flipped, judged against an independent compress/gzip reading of the same bytes; CLI: stdout and --outputFile on /dev/full for file / gzip / stdin input, stdout a pipe closed by its reader, damaged .gz files at every 16th (thorough: every) offset. Oracle: a surfaced fault => error return / non-zero exit; bytes accepted by the writer are a byte prefix of the fault-free output; after a read fault the output is a whole-line prefix of the fault-free lines (for damaged gzip: of the redaction of the complete lines actually delivered). distinct = distinct (input, fault) pairs" + "; inputs holding a 70 000- / 200 000-byte line (beyond the line limit) under the same Read-index and gzip-cut enumeration; /dev/full on stdout / --outputFile at 1, 50, 400, 2 000, 6 000 (thorough 20 000) input lines from file and stdin",
 		Assumptions: []string{"for flipped gzip bytes 'fault-free' is read relative to the bytes the decompressor delivered before failing (DESIGN.md 3.0 / section 5)", "a damaged stream that an independent reader still accepts must be processed completely or rejected"},
 		Run:         c08Run,
 	})
